@@ -442,6 +442,9 @@ def build(src):
     # ---- parse(argc, argv): every argv word but the first becomes a user_input, in order (C12, C04)
     u.add(F("parser_parse_argv", PAR, r"arguments parser::parse\(int argc, const char\* const argv\[\]\)", "void parser_parse_argv(struct oarguments *ret, struct oparser *self, int argc, const struct ostr *argv)", ["C12", "C04", "C01"],
             rules=[Rule("D7.vector-decl", r"std::vector<options::user_input>\s+args;", "struct oargs args; args.n = 0;"),
+                   # argv words as C strings: argv[1..argc-1] are never null ([basic.start.main]); the first byte is NUL iff the word is empty
+                   Rule("D7.cstring-null", r"\bargv\[i\]\s*==\s*nullptr", "0"), Rule("D7.cstring-null", r"\bargv\[i\]\s*!=\s*nullptr", "1"),
+                   Rule("D7.cstring-empty", r"\bargv\[i\]\[0\]\s*==\s*'\\0'", "(argv[i].len == 0)"), Rule("D7.cstring-empty", r"\bargv\[i\]\[0\]\s*!=\s*'\\0'", "(argv[i].len != 0)"),
                    Rule("D7.vector-emplace", r"\bargs\.emplace_back\(argv\[i\]\);", "ui_ctor(&args.a[args.n], &argv[i]); NITRO_PROPAGATE; ++args.n;"),
                    Rule("D3.rvo-call", r"return parse\(args\);", "parser_parse(ret, self, &args); NITRO_PROPAGATE; return;")],
             must_fire=["D7.vector-decl", "D7.vector-emplace", "D3.rvo-call"], unwind=NARGS + 2,
